@@ -2,6 +2,7 @@ package props
 
 import (
 	"fmt"
+	"go/constant"
 	"go/token"
 	"go/types"
 	"math"
@@ -29,6 +30,7 @@ const (
 	markSuccess
 	markFailure
 	markBad
+	markSplit // success on some paths, failure on others: the value is chosen by a branch (φ)
 )
 
 // c01ctx holds the anchors of the breaker package, resolved by role.
@@ -157,14 +159,47 @@ func (c *c01ctx) directMark(in ssa.Instruction) markKind {
 	if !c.isStatAdd(in) {
 		return markNone
 	}
-	v, ok := core.ConstFloat(core.Args(core.AsCall(in))[1])
-	switch {
-	case ok && v == 1:
-		return markSuccess
-	case ok && v == 0:
-		return markFailure
+	kind := markNone
+	for _, cs := range c.markCases(in) {
+		switch {
+		case cs.kind == markBad:
+			return markBad
+		case kind == markNone:
+			kind = cs.kind
+		case kind != cs.kind:
+			kind = markSplit
+		}
 	}
-	return markBad
+	if kind == markNone {
+		return markBad
+	}
+	return kind
+}
+
+// markCase is one alternative of the value an Add on the breaker's window records.
+type markCase struct {
+	kind markKind // markSuccess (1), markFailure (0) or markBad
+	via  []core.Edge
+}
+
+// markCases evaluates the value added to the window: the constant 1 or 0, written
+// literally, chosen by a branch, or looked up in a constant package-level table
+// (`outcomeValues[o]`) — what is decided is the value, not its spelling.
+func (c *c01ctx) markCases(in ssa.Instruction) []markCase {
+	var out []markCase
+	for _, cs := range constCases(core.Args(core.AsCall(in))[1]) {
+		k := markBad
+		if cs.val != nil && (cs.val.Kind() == constant.Int || cs.val.Kind() == constant.Float) {
+			switch {
+			case constant.Compare(cs.val, token.EQL, constant.MakeInt64(1)):
+				k = markSuccess
+			case constant.Compare(cs.val, token.EQL, constant.MakeInt64(0)):
+				k = markFailure
+			}
+		}
+		out = append(out, markCase{k, cs.via})
+	}
+	return out
 }
 
 // markOf classifies an instruction as an outcome-recording site: a direct
@@ -189,6 +224,9 @@ func (c *c01ctx) isFailure(in ssa.Instruction) bool {
 	k := c.markOf(in)
 	return k == markFailure || k == markBad
 }
+
+// isSplit: a site that records success on some paths and failure on others.
+func (c *c01ctx) isSplit(in ssa.Instruction) bool { return c.markOf(in) == markSplit }
 
 // accumulator classifies a local captured by the closure handed to
 // stat.Reduce: "accepts" when the closure adds Bucket.Sum to it, "total" when
@@ -337,12 +375,7 @@ func c01(r *core.Run) {
 		}
 		f := c.accept
 		r.Fn(core.FuncName(f))
-		a := &core.Alg{Name: func(v ssa.Value) string {
-			if core.FieldAddrNameOfLoad(v) == c.kField {
-				return "k"
-			}
-			return c.historyName(v)
-		}}
+		a := c.thresholdAlg()
 		want := core.ParsePoly("max(0, (total - 5 - k*accepts)/(total + 1))")
 		draws := core.Calls(f, isProba)
 		o.Site(len(draws), core.FuncName(f))
@@ -391,34 +424,20 @@ func c01(r *core.Run) {
 		if w := core.Requires(f, nonNil, drawTrue); w != nil {
 			o.Fail(p.InstrPos(w), "a rejection is reachable without a successful random draw against the drop ratio")
 		}
-		// the draw may be skipped only when the ratio is ≤ 0
+		// the draw may be skipped only when the ratio is ≤ 0. What "ratio ≤ 0" is tested on is
+		// decided on normal forms, not on the value handed to the draw: for ratio ≡ max(0, q)
+		// the tests on the ratio and on q are the same test, and for q ≡ n/d with d provably
+		// positive (d = total + 1, total a sum of bucket counts ≥ 0) so is the test on the
+		// numerator n, however it is spelled (`n <= 0`, `0 >= n`, `x <= y` with x − y ≡ n, …).
 		draws := core.Calls(f, isProba)
+		a := c.thresholdAlg()
 		var ratioLE []core.Edge
 		for _, d := range draws {
-			ratio := core.Args(d)[1]
-			le := func(v ssa.Value) (bool, bool) {
-				b, ok := v.(*ssa.BinOp)
-				if !ok {
-					return false, false
-				}
-				op := b.Op
-				switch {
-				case b.X == ratio && isZero(b.Y):
-				case b.Y == ratio && isZero(b.X):
-					op = flipCmp(op)
-				default:
-					return false, false
-				}
-				switch op {
-				case token.LEQ, token.LSS:
-					return true, true
-				case token.GTR, token.GEQ:
-					return true, false
-				}
-				return false, false
+			for _, form := range c.ratioSignForms(a, core.Args(d)[1]) {
+				// edges on which form ≤ 0 (or < 0) is established
+				_, le := core.EdgesOf(f, core.CmpPoly(a, form, true))
+				ratioLE = append(ratioLE, le...)
 			}
-			h, _ := core.EdgesOf(f, le)
-			ratioLE = append(ratioLE, h...)
 		}
 		if w, ok := core.Reach(core.Q{From: []core.At{core.Entry(f)}, Target: core.IsReturn, Blocked: isProba, Cut: core.CutSet(ratioLE)}); ok {
 			o.Fail(p.InstrPos(w), "the admission test can return without drawing although the drop ratio is positive (a failing dependency would never be cut off)")
@@ -628,6 +647,28 @@ func c01(r *core.Run) {
 		if w := core.Requires(f, c.isFailure, core.Not(ok)); w != nil {
 			o.Fail(p.InstrPos(w), "failure is recorded although the error was acceptable (a benign outcome moves the breaker towards open)")
 		}
+		// one recording site whose value is chosen by the verdict (`mark(outcomeOf(acceptable(err)))`,
+		// `v := 0.0; if acceptable(err) { v = 1 }; Add(v)`): each alternative of the value must be
+		// chosen through an edge taken only on the matching arm of the predicate
+		for _, in := range core.Instrs(f, c.isSplit) {
+			if c.directMark(in) != markSplit {
+				o.Fail(p.InstrPos(in), "the outcome recorded here is decided inside a helper, not by the acceptable-predicate of this call")
+				continue
+			}
+			for _, cs := range c.markCases(in) {
+				at, what := ok, "success is recorded although the error was not acceptable (or without consulting the predicate)"
+				if cs.kind != markSuccess {
+					at, what = core.Not(ok), "failure is recorded although the error was acceptable (a benign outcome moves the breaker towards open)"
+				}
+				guarded := false
+				for _, e := range cs.via {
+					guarded = guarded || edgeGuarded(f, e, at)
+				}
+				if !guarded {
+					o.Fail(p.InstrPos(in), "%s", what)
+				}
+			}
+		}
 	})
 	r.Check("D2/K1/panic-recorded-and-reraised", "a deferred closure registered before the request recovers; on recover()!=nil it records exactly one failure and re-panics with the recovered value; otherwise it records nothing", func(o *core.O) {
 		if !d2(o) {
@@ -680,7 +721,7 @@ func c01(r *core.Run) {
 		if w := core.ReachableFromEdges(none, c.isMark, nil); w != nil {
 			o.Fail(p.InstrPos(w), "the deferred closure records an outcome on its recover()==nil arm")
 		}
-		for _, in := range core.Instrs(g, c.isSuccess) {
+		for _, in := range core.Instrs(g, core.Or(c.isSuccess, c.isSplit)) {
 			o.Fail(p.InstrPos(in), "the deferred closure records a success")
 		}
 	})
@@ -694,13 +735,15 @@ func c01(r *core.Run) {
 		for _, f := range p.PkgFuncs(brkPkg) {
 			for _, in := range core.Instrs(f, c.isStatAdd) {
 				r.Fn(core.FuncName(f))
-				switch c.directMark(in) {
-				case markSuccess:
-					ns++
-				case markFailure:
-					nf++
-				default:
-					o.Fail(p.InstrPos(in), "%s adds %s to the breaker window (Sum must count successes, Count all outcomes)", core.FuncName(f), core.Describe(core.Args(core.AsCall(in))[1]))
+				for _, cs := range c.markCases(in) {
+					switch cs.kind {
+					case markSuccess:
+						ns++
+					case markFailure:
+						nf++
+					default:
+						o.Fail(p.InstrPos(in), "%s adds %s to the breaker window (Sum must count successes, Count all outcomes)", core.FuncName(f), core.Describe(core.Args(core.AsCall(in))[1]))
+					}
 				}
 			}
 		}
@@ -760,11 +803,12 @@ func c01(r *core.Run) {
 			found++
 			isAcc := core.Or(c.isSuccess, core.CallMethod("", "Accept"))
 			isRej := core.Or(c.isFailure, core.CallMethod("", "Reject"))
+			mayAcc, mayRej := core.Or(isAcc, c.isSplit), core.Or(isRej, c.isSplit)
 			for _, m := range []struct {
 				f         *ssa.Function
 				want, bad func(ssa.Instruction) bool
 				w, b      string
-			}{{acc, isAcc, isRej, "success", "failure"}, {rej, isRej, isAcc, "failure", "success"}} {
+			}{{acc, isAcc, mayRej, "success", "failure"}, {rej, isRej, mayAcc, "failure", "success"}} {
 				r.Fn(core.FuncName(m.f))
 				o.Site(1, core.FuncName(m.f))
 				if w := core.MustPass(core.Entry(m.f), m.want, core.IsExit); w != nil {
